@@ -163,7 +163,8 @@ dgssv(superlu_options_t *options, SuperMatrix *A, int *perm_c, int *perm_r,
     /* Test the input parameters ... */
     *info = 0;
     Bstore = B->Store;
-    if ( options->Fact != DOFACT ) *info = -1;
+    if ( options->Fact != DOFACT ||
+	 (unsigned int) options->ColPerm > (unsigned int) MY_PERMC ) *info = -1;
     else if ( A->nrow != A->ncol || A->nrow < 0 ||
 	 (A->Stype != SLU_NC && A->Stype != SLU_NR) ||
 	 A->Dtype != SLU_D || A->Mtype != SLU_GE )
